@@ -9,6 +9,7 @@ mod corpus;
 mod builder;
 mod schema;
 mod inventory;
+mod display;
 pub mod leanout;
 
 fn main() {
@@ -26,6 +27,7 @@ fn main() {
         "builder" => builder::run(&repo, &out),
         "schema" => schema::run(&repo, &out),
         "inventory" => inventory::run(&repo, &out),
+        "display" => display::run(&repo).map(|v| v.iter().for_each(|l| println!("{l}"))),
         "all" => corpus::run(&repo, &out)
             .and_then(|_| callgraph::run(&repo, &out))
             .and_then(|_| builder::run(&repo, &out))
